@@ -130,6 +130,8 @@ class Gen:
         want_create = nlive < 2 or (nlive < self.max_live and x < 0.30)
         if self.profile == "churn":
             want_create = nlive < 2 or (nlive < self.max_live and x < 0.45)
+        if self.profile == "store":
+            want_create = nlive < 3 or (nlive < self.max_live and x < 0.12)
         if want_create:
             c = r.random()
             if c < 0.30:
@@ -152,6 +154,8 @@ class Gen:
         y = r.random()
         if self.profile == "churn":
             y = y * 0.42
+        if self.profile == "store" and y < 0.42 and r.random() < 0.6:
+            y = 0.42 + r.random() * 0.58
         if y < 0.14:
             k = self.pick(0.2)
             return {"o": "delete", "h": k}, ("kill", [k])
@@ -181,7 +185,36 @@ class Gen:
             return {"o": "linsert_all", "s": r.randrange(self.S), "hs": [self.pick() for _ in range(n)]}, None
         if y < 0.93:
             return {"o": "lremove", "s": r.randrange(self.S), "h": self.pick()}, None
+        if self.profile == "store" or y < 0.95:
+            return self.wop(), None
         return None, None
+
+    def wop(self):
+        r = self.r
+        s = r.randrange(self.S)
+        k = r.choice(["drain", "drain", "clear", "count", "join", "join", "joinmut", "joinmut", "joinmut", "joinent",
+                      "entries", "restrict", "restrict", "restrict", "slice", "slicemut", "setemit"])
+        op = {"o": "wop", "k": k, "s": s}
+        if k == "drain":
+            op["n"] = r.choice([-1, -1, 0, 1, 2, 3])
+        elif k == "clear" and r.random() < 0.6:
+            op["k"] = "count"
+        elif k == "join":
+            op["v"] = r.choice(["join", "lend", "lend_for_each", "par"])
+        elif k == "joinmut":
+            op["v"] = r.choice(["join", "lend", "par"])
+            op["sel"] = 0xffff
+            op["wsel"] = r.choice([0xffff, 0, r.randrange(1 << 16), r.randrange(1 << 16)])
+        elif k == "restrict":
+            op["v"] = r.choice(["read", "read_lend", "read_par", "mut_join", "mut_lend", "mut_par"])
+            op["sel"] = r.choice([0xffff, 0, r.randrange(1 << 16), r.randrange(1 << 16)])
+            op["wsel"] = r.choice([0xffff, 0, r.randrange(1 << 16)])
+        elif k == "slicemut":
+            op["sel"] = 0xffff
+            op["wsel"] = r.randrange(1 << 16)
+        elif k == "setemit":
+            op["b"] = r.random() < 0.6
+        return op
 
     def apply(self, eff):
         if eff is None:
@@ -235,8 +268,17 @@ class Gen:
             else:
                 self.apply(eff)
 
-    def script(self, n_ops):
+    FAR = [0, 1, 2, 31, 32, 63, 64, 65, 127, 128, 4031, 4032, 4095, 4096, 4097, 8191]
+    FARTHER = [258047, 258048, 262143, 262144, 262145]
+
+    def script(self, n_ops, far=0):
         ops = []
+        if far:
+            pool = self.FAR + (self.FARTHER if far > 1 else [])
+            keep = sorted(self.r.sample(pool, self.r.randint(4, 9)))
+            ops.append({"o": "prealloc", "n": keep[-1] + 1, "keep": keep})
+            for _ in keep:
+                self._new(False)
         while len(ops) < n_ops:
             op, eff = self.simple_op()
             if op is None:
@@ -265,12 +307,12 @@ class Gen:
         return ops
 
 
-def random_scripts(seed, n, n_ops, S_choices, tid0, profile="mixed", sweep="full", kinds=None, max_live=14):
+def random_scripts(seed, n, n_ops, S_choices, tid0, profile="mixed", sweep="full", kinds=None, max_live=14, far=0):
     res = []
     for i in range(n):
         rng = random.Random((seed * 1000003 + i * 7919 + hash(profile) % 1000) & 0xFFFFFFFF)
         S = S_choices[i % len(S_choices)]
         g = Gen(rng, S, max_live=max_live, profile=profile)
-        ops = g.script(n_ops)
+        ops = g.script(n_ops, far=(far if i % 3 == 0 else 0))
         res.append({"tid": tid0 + i, "cfg": cfg_for(rng.randrange(1000), S, kinds or KINDS), "ops": ops, "sweep": sweep})
     return res
